@@ -84,13 +84,36 @@ func newRxEnv(nEed, nEnv int) *rxEnv {
 	conn, _ := tds.VerifNewConn(context.Background(), newCapConn(), info, false)
 	// the receive path is the same for the main channel and for logical channels: the id varies with the case
 	e := &rxEnv{conn: conn, ch: conn.VerifNewChannel((nEed + 2*nEnv) % 3)}
-	for i := 0; i < nEed; i++ {
-		e.addEEDHook()
+	// the hooks of a case are registered the way a driver does it: all at once from a list the caller keeps —
+	// and goes on using for something else afterwards (the channel must not go on sharing it: nothing written
+	// into the caller's list later is a registered hook, and no registered hook is lost)
+	if nEed > 0 {
+		list := make([]tds.EEDHook, 0, nEed+4)
+		for i := 0; i < nEed; i++ {
+			list = append(list, e.eedHook())
+		}
+		e.ch.RegisterEEDHooks(list...)
+		for i := range list[:cap(list)] {
+			list[:cap(list)][i] = func(tds.EEDPackage) { e.note("UNREGISTERED-EED-HOOK-CALLED") }
+		}
 	}
-	for i := 0; i < nEnv; i++ {
-		e.addEnvHook()
+	if nEnv > 0 {
+		list := make([]tds.EnvChangeHook, 0, nEnv+4)
+		for i := 0; i < nEnv; i++ {
+			list = append(list, e.envHook())
+		}
+		e.ch.RegisterEnvChangeHooks(list...)
+		for i := range list[:cap(list)] {
+			list[:cap(list)][i] = func(tds.EnvChangeType, string, string) { e.note("UNREGISTERED-ENV-HOOK-CALLED") }
+		}
 	}
 	return e
+}
+
+func (e *rxEnv) note(s string) {
+	e.mu.Lock()
+	e.hooks = append(e.hooks, s)
+	e.mu.Unlock()
 }
 
 func (e *rxEnv) feedPacket(tok string) bool {
@@ -464,6 +487,11 @@ func c02Gen(tier string, rng *rand.Rand, emit func(Case)) {
 			emit(Case{Line: fmt.Sprintf("rx %d %d %s", ne, nv, strings.Join(cutTokens(body, all), " ")), Kind: "one-byte-bodies"})
 		}
 	}
+	// a package of the largest size its 16-bit length field admits, followed by the DONE: more than 64 KiB
+	// wait in the receive queue when the last packet arrives
+	for _, c := range largeResponses(rng) {
+		emit(Case{Line: fmt.Sprintf("rx %d 0 %s", rng.Intn(2), strings.Join(c, " ")), Kind: "large-package"})
+	}
 	// all 2^(n-1) cut sets of short streams
 	for _, resp := range [][]respPkg{{rDone(0, 1)}, {rDone(1, 2), rDone(0, 3)}, {rMsg(7), rDone(16, 1)}} {
 		body := respBytes(resp)
@@ -725,16 +753,18 @@ func cbErrOf(spec string) error {
 	return errCb
 }
 
-func (e *rxEnv) addEEDHook() {
+func (e *rxEnv) eedHook() tds.EEDHook {
 	i := e.nEed
 	e.nEed++
-	e.ch.RegisterEEDHooks(func(eed tds.EEDPackage) {
+	return func(eed tds.EEDPackage) {
 		k, _ := e.ch.VerifQueued()
 		e.mu.Lock()
 		e.hooks = append(e.hooks, fmt.Sprintf("e%d@%d:%s", i, k, showDelivered(&eed)))
 		e.mu.Unlock()
-	})
+	}
 }
+
+func (e *rxEnv) addEEDHook() { e.ch.RegisterEEDHooks(e.eedHook()) }
 
 // refusedHooks: a registration that is refused (a nil hook after a valid one): nothing of it may stay
 // registered — the valid hook of the refused call is never called
@@ -760,16 +790,18 @@ func (e *rxEnv) refusedHooks(env bool) {
 	}
 }
 
-func (e *rxEnv) addEnvHook() {
+func (e *rxEnv) envHook() tds.EnvChangeHook {
 	i := e.nEnv
 	e.nEnv++
-	e.ch.RegisterEnvChangeHooks(func(typ tds.EnvChangeType, oldValue, newValue string) {
+	return func(typ tds.EnvChangeType, oldValue, newValue string) {
 		k, _ := e.ch.VerifQueued()
 		e.mu.Lock()
 		e.hooks = append(e.hooks, fmt.Sprintf("n%d@%d:%d:%s:%s:%d", i, k, int(typ), hx([]byte(oldValue)), hx([]byte(newValue)), e.conn.PacketSize()))
 		e.mu.Unlock()
-	})
+	}
 }
+
+func (e *rxEnv) addEnvHook() { e.ch.RegisterEnvChangeHooks(e.envHook()) }
 
 func (e *rxEnv) round(spec string) string {
 	var seen []string
@@ -994,4 +1026,26 @@ func withStatusBits(rng *rand.Rand, emit func(Case)) func(Case) {
 			emit(Case{Line: strings.Join(f, " "), Kind: c.Kind + "+statusbits"})
 		}
 	}
+}
+
+// largeResponses: [EED of 65538 bytes (the most its length field admits), DONE] and [EED of 40000 bytes, the
+// same again, DONE] in packets of 504, 4088 and 65527 body bytes
+func largeResponses(rng *rand.Rand) [][]string {
+	var out [][]string
+	for _, msgLens := range [][]int{{65511}, {40000, 40000}, {65511, 65511}} {
+		var r []respPkg
+		for i, l := range msgLens {
+			r = append(r, rEED(2000+i, false, strings.Repeat("m", l)))
+		}
+		r = append(r, rDone(0, 7))
+		body := respBytes(r)
+		for _, sz := range []int{504, 4088, 65527} {
+			var cuts []int
+			for c := sz; c < len(body); c += sz {
+				cuts = append(cuts, c)
+			}
+			out = append(out, cutTokens(body, cuts))
+		}
+	}
+	return out
 }
